@@ -102,7 +102,13 @@ class C(Check):
                 continue
             self.note_asserts(r)
             prog = [render(s) for s in st]
+            if r.status == 'timeout' and self.cov.get('timeouts-re-run-alone', 0) >= 8:
+                # the sequential re-runs are capped (each may take two minutes); further time-outs of this run stay undecided
+                self.count('timed-out (not re-run, inconclusive)')
+                self.inconclusive += 1
+                continue
             if r.status == 'timeout':
+                self.count('timeouts-re-run-alone')
                 r2, _ = run_one('asan', cid, st, timeout=120)
                 if r2 is not None and r2.status != 'timeout':
                     self.count('slow-under-load (finished when re-run alone)')
